@@ -339,6 +339,20 @@ func runC15(rc *RunCtx) {
 		rc.Cov.Sample(map[string]interface{}{"history_tail": e.history[max(0, len(e.history)-8):]})
 	}
 	c15Confusables(rc)
+	// every privileged type with every argument variant, submitted by an account that holds no role: nothing may be
+	// written (the state tap compares the complete state after each)
+	if rc.Shard == 1%rc.NShards {
+		if e, err := StdEngine(rc, false, false, nil); err == nil {
+			e.Exec(Tx{Msgs: msgs1(&ct.MsgUpdateOwner{From: e.M.Owner, NewOwner: Acct(OtherIx)}), Note: "C15 outsider table: a pending owner exists"})
+			for _, at := range adminTypes {
+				for v := 0; v < 10; v++ {
+					r := e.Exec(Tx{Msgs: msgs1(at.Make(e.M, Acct(UserIx), v)), Note: "C15 " + at.Name + " by an account without a role"})
+					rc.Cov.Cell("C15_types", at.Name+"/outsider/"+okWord(r.OK))
+					e.readOnlyGuard("state-tap")
+				}
+			}
+		}
+	}
 	ProbeHistory(rc, rc.Pick(240, 900), false)
 	_ = ref.Pad32
 }
